@@ -19,7 +19,13 @@ import numpy
 from bitarray import bitarray, frozenbitarray
 from bitarray.util import int2ba
 
-from common import bits_str, impl_error
+try:
+    from common import bits_str, impl_error
+except ImportError:  # run as a script (the fresh-process helper of shrink())
+    import sys
+
+    sys.path.insert(0, os.path.dirname(os.path.dirname(os.path.abspath(__file__))))
+    from common import bits_str, impl_error
 
 PROP = "C06"
 MODULES = ["C06"]
@@ -322,6 +328,8 @@ def run_history(table, refs, steps, window=3, on_bad=None):
             owner.append(idx)
             exp.append(None if obj is None else out.split(" ")[-1])
         reread(max(0, len(held) - window), idx)
+        if idx & (idx + 1) == 0:
+            reread(0, idx)  # everything kept so far, after 1, 2, 4, 8, … steps
     reread(0, len(steps) - 1)
     for r, obj in enumerate(held):
         if obj is not None:
@@ -355,36 +363,252 @@ def sub_history(steps, idxs):
     return out
 
 
-def shrink(table, refs, steps, at, owner):
-    """a short history that still fails: the affected step alone / with the offending step / with
-    the allocation of an overwritten object / with a few predecessors; else the whole prefix"""
+def fresh_first_failing_each(cand_lists):
+    """
+    For every list of candidate histories: index of the first one that fails when it is run alone
+    in a fresh process (the checking process has already called the library thousands of times, so
+    a history that "fails" here may only do so because of state left behind by earlier calls), or None.
+    """
+    import subprocess
+    import sys
+
+    try:
+        p = subprocess.run(
+            [sys.executable, os.path.abspath(__file__), "--fresh"],
+            input=json.dumps({"events": cand_lists}),
+            capture_output=True,
+            text=True,
+            timeout=900,
+        )
+        return json.loads(p.stdout.strip().splitlines()[-1])["first"]
+    except BaseException:  # noqa
+        return [None] * len(cand_lists)
+
+
+def _fresh_main():
+    import sys
+
+    data = json.load(sys.stdin)
+    ref_json = json.load(open(os.path.join(os.path.dirname(os.path.abspath(__file__)), "..", "reference", "etsi_codes.json")))
+    table = {c[0]: c for c in codes()}
+    refs = {name: Ref(name, n, k, d, h, ref_json[name]["G"]) for name, _, n, k, d, h in codes()}
+    def fails_fresh(hist) -> bool:
+        pid = os.fork()  # every candidate sees a library on which nothing has been called yet
+        if pid == 0:
+            try:
+                bad = history_fails(table, refs, hist)
+            except BaseException:  # noqa
+                os._exit(2)
+            os._exit(1 if bad else 0)
+        _, status = os.waitpid(pid, 0)
+        return os.WIFEXITED(status) and os.WEXITSTATUS(status) == 1
+
+    if "history" in data:
+        # the whole history on a fresh library: what fails here does not depend on anything else
+        steps = data["history"]
+        rd, wr = os.pipe()
+        pid = os.fork()
+        if pid == 0:
+            os.close(rd)
+            ev = []
+            try:
+                run_history(table, refs, steps, on_bad=lambda *a: ev.append(list(a)) if len(ev) < EVENTS_PER_PROBE else None)
+            except BaseException:  # noqa
+                pass
+            with os.fdopen(wr, "w") as fh:
+                fh.write(json.dumps(ev))
+            os._exit(0)
+        os.close(wr)
+        with os.fdopen(rd) as fh:
+            events = json.loads(fh.read() or "[]")
+        os.waitpid(pid, 0)
+        shorts = []
+        for kind, at, owner, _, _ in events:
+            short = None
+            for hist in small_candidates(steps, at, owner):
+                if fails_fresh(hist):
+                    short = hist
+                    break
+            shorts.append(short)
+        print(json.dumps({"events": events, "shorts": shorts}))
+        return
+    out = []
+    for cands in data["events"]:
+        first = None
+        for i, hist in enumerate(cands):
+            if fails_fresh(hist):
+                first = i
+                break
+        out.append(first)
+    print(json.dumps({"first": out}))
+
+
+def _ddmin_main():
+    """delta debugging of a failing history; every trial runs in a forked child of this fresh process"""
+    import sys
+    import time
+
+    data = json.load(sys.stdin)
+    steps, keep, deadline = data["steps"], set(data["keep"]), time.time() + data.get("seconds", 20)
+    ref_json = json.load(open(os.path.join(os.path.dirname(os.path.abspath(__file__)), "..", "reference", "etsi_codes.json")))
+    table = {c[0]: c for c in codes()}
+    refs = {name: Ref(name, n, k, d, h, ref_json[name]["G"]) for name, _, n, k, d, h in codes()}
+
+    def test(idxs):
+        sub = sub_history(steps, idxs)
+        if sub is None:
+            return False
+        pid = os.fork()
+        if pid == 0:
+            try:
+                bad = history_fails(table, refs, sub)
+            except BaseException:  # noqa
+                os._exit(2)
+            os._exit(1 if bad else 0)
+        _, status = os.waitpid(pid, 0)
+        return os.WIFEXITED(status) and os.WEXITSTATUS(status) == 1
+
+    cur = list(range(len(steps)))
+    if not test(cur):
+        print(json.dumps({"history": None}))
+        return
+    n = 2
+    while time.time() < deadline:
+        removable = [i for i in cur if i not in keep]
+        if not removable:
+            break
+        chunk = max(1, -(-len(removable) // n))
+        progressed = False
+        for start in range(0, len(removable), chunk):
+            drop = set(removable[start : start + chunk])
+            cand = [i for i in cur if i not in drop]
+            if test(cand):
+                cur, n, progressed = cand, max(n - 1, 2), True
+                break
+            if time.time() > deadline:
+                break
+        if not progressed:
+            if chunk == 1:
+                break
+            n = min(len(removable), n * 2)
+    print(json.dumps({"history": sub_history(steps, cur)}))
+
+
+DDMIN_LEFT = [3]  # delta-debugging runs left in this process (failure mode only; keeps the run time bounded)
+
+
+def ddmin_fresh(prefix, keep):
+    import subprocess
+    import sys
+
+    if DDMIN_LEFT[0] <= 0:
+        return None
+    DDMIN_LEFT[0] -= 1
+    try:
+        p = subprocess.run([sys.executable, os.path.abspath(__file__), "--ddmin"], input=json.dumps({"steps": prefix, "keep": sorted(keep), "seconds": 8}),
+                           capture_output=True, text=True, timeout=600)
+        return json.loads(p.stdout.strip().splitlines()[-1]).get("history")
+    except BaseException:  # noqa
+        return None
+
+
+def small_candidates(steps, at, owner):
+    """
+    Short sub-histories that may still fail: the affected step alone / with the offending step /
+    with the allocation of an overwritten object / with a few predecessors / with the last steps
+    on the same code (smallest first).
+    """
     alloc = [i for i, st in enumerate(steps[: at + 1]) if st[0] in RESULT_OPS]
     base = {owner, at}
     if steps[at][0] == "overwrite" and steps[at][1] < len(alloc):
         base.add(alloc[steps[at][1]])
-    cands = [base]
+    sets = [base]
     for back in (1, 2, 4, 8):
-        cands.append(base | set(range(max(0, at - back), at)))
-        cands.append(base | set(range(max(0, at - back), at)) | set(range(owner, min(at, owner + back + 1))))
-    same = [i for i in range(at) if steps[i][0] != "overwrite" and steps[i][1] == steps[owner][1]][-6:]
-    cands.append(base | set(same))
-    for c in cands:
+        sets.append(base | set(range(max(0, at - back), at)))
+        sets.append(base | set(range(max(0, at - back), at)) | set(range(owner, min(at, owner + back + 1))))
+    code = steps[owner][1]
+    same = [i for i in range(max(0, at - 4000), at) if steps[i][0] != "overwrite" and steps[i][1] == code]
+    for m in (6, 40):
+        sets.append(base | set(same[-m:]))
+    for m in (16, 128):
+        sets.append(base | set(range(max(0, at - m), at)))
+    cands = []
+    for c in sets:
         sub = sub_history(steps, c)
-        if sub is not None and history_fails(table, refs, sub):
-            return sub
-    return steps[: at + 1]
+        if sub is not None and sub not in cands:
+            cands.append(sub)
+    return cands
+
+
+EVENTS_PER_PROBE = 48  # failures of one history that are examined (the rest is counted)
+REPORTS_PER_PROBE = 6  # … and reported
 
 
 def history_probe(ctx, fails, table, refs, component, steps, correspond=True):
-    seen = [0]
+    events = []
 
     def on_bad(kind, at, owner, expected, actual):
-        seen[0] += 1
-        if seen[0] > 6:
-            # one defect usually spoils every later step: the first few are reported, the rest counted
+        if len(events) < EVENTS_PER_PROBE:
+            events.append((kind, at, owner, expected, actual))
+        else:
+            # one defect usually spoils every later step: the first few are examined, the rest counted
             ctx.count(f"suppressed-failure:{kind}")
-            return
-        short = shrink(table, refs, steps, at, owner)
+
+    lines, held, _ = run_history(table, refs, steps, on_bad=on_bad)
+    ctx.count(f"hist:{component}:steps", len(steps))
+    ctx.count(f"hist:{component}:kept-objects", len(held))
+    ctx.count(f"hist:{component}:overwrites", sum(1 for s in steps if s[0] == "overwrite"))
+    for st in steps:
+        ctx.case(("hist", component) + tuple(st))
+    if events:
+        report_events(ctx, fails, steps, events)
+    if correspond and not ctx.search_only and ctx.driver_ok:
+        ctx.correspond(f"history.{component}", [("h.reset", "ok")] + lines)
+    return held
+
+
+def fresh_history(steps):
+    """events of the whole history on a fresh library, each with a short history that still fails (or None)"""
+    import subprocess
+    import sys
+
+    try:
+        p = subprocess.run([sys.executable, os.path.abspath(__file__), "--fresh"], input=json.dumps({"history": steps}), capture_output=True, text=True, timeout=900)
+        r = json.loads(p.stdout.strip().splitlines()[-1])
+        return [tuple(e) for e in r["events"]], r["shorts"]
+    except BaseException:  # noqa
+        return [], []
+
+
+def report_events(ctx, fails, steps, events):
+    """
+    Failing inputs of a history.  The history is run once more on a fresh library (a new process):
+    what fails there is self-contained and is reported with a short sub-history that still fails
+    (tried in fresh processes as well).  Failures seen only in this process — they need the state
+    left behind by the earlier part of the run — are reported with the prefix of the history.
+    """
+    fev, shorts = fresh_history(steps)
+    if fev:
+        order = [i for i, sh in enumerate(shorts) if sh is not None] + [i for i, sh in enumerate(shorts) if sh is None]
+        chosen = [(fev[i], shorts[i], True) for i in order[:REPORTS_PER_PROBE]]
+        if shorts[order[0]] is None:
+            # the steps that matter are far apart: delta debugging on the prefix, in fresh processes
+            (kind, at, owner, _, _) = fev[order[0]]
+            small = ddmin_fresh(steps[: at + 1], {owner, at})
+            chosen[0] = (fev[order[0]], small, True)
+        for _ in range(max(0, len(events) - len(chosen))):
+            ctx.count(f"suppressed-failure:{events[0][0]}")
+    else:
+        chosen = [(ev, None, False) for ev in events[:REPORTS_PER_PROBE]]
+        for ev in events[REPORTS_PER_PROBE:]:
+            ctx.count(f"suppressed-failure:{ev[0]}")
+    for (kind, at, owner, expected, actual), short, alone in chosen:
+        if short is None:
+            short = steps[: at + 1]
+        if kind == "wrong-result" and steps[at][0] in RESULT_OPS:
+            # the leading handle number belongs to the long history, not to the shortened one
+            expected = expected.split(" ", 1)[-1]
+            actual = actual if actual.startswith("ERR") else actual.split(" ", 1)[-1]
         code = steps[owner][1] if steps[owner][0] != "overwrite" else None
         if kind == "held-result-changed":
             what = (
@@ -395,21 +619,11 @@ def history_probe(ctx, fails, table, refs, component, steps, correspond=True):
             what = f"step {at} ({' '.join(map(str, steps[at]))}) of a history returns a wrong result"
         fails(
             kind if kind == "held-result-changed" else "wrong-result-in-history",
-            {"code": code, "history": [" ".join(map(str, s)) for s in short]},
-            what,
+            {"code": code, "history": [" ".join(map(str, s)) for s in short], "fails_when_run_alone_in_a_fresh_process": alone},
+            what if alone else what + " (seen after the earlier part of this run; the history alone did not reproduce it in a fresh process)",
             expected=expected,
             actual=actual,
         )
-
-    lines, held, _ = run_history(table, refs, steps, on_bad=on_bad)
-    ctx.count(f"hist:{component}:steps", len(steps))
-    ctx.count(f"hist:{component}:kept-objects", len(held))
-    ctx.count(f"hist:{component}:overwrites", sum(1 for s in steps if s[0] == "overwrite"))
-    for st in steps:
-        ctx.case(("hist", component) + tuple(st))
-    if correspond and not ctx.search_only and ctx.driver_ok:
-        ctx.correspond(f"history.{component}", [("h.reset", "ok")] + lines)
-    return held
 
 
 def parse_step(s: str):
@@ -509,8 +723,11 @@ def run(ctx):
         gen_forms = BA_FORMS + NP_FORMS
         steps = []
         for r in range(rounds):
-            for v in range(2**k):
-                form = "be" if r == 0 else gen_forms[(r + v) % len(gen_forms)]
+            for v0 in range(2**k):
+                # the code book in counting order first, then messages at random (no period that a
+                # recycling scheme of the implementation could share)
+                v = v0 if r == 0 else ctx.rng.randrange(2**k)
+                form = "be" if r == 0 else ctx.rng.choice(gen_forms)
                 if form.startswith("buf-") and k % 8:
                     form = "le"
                 steps.append(["gen", name, form, format(v, f"0{k}b")])
@@ -655,8 +872,28 @@ def run(ctx):
                 if arg is None:
                     continue
                 line = f"code.genS {name} {store_args(arg)}" if form in BA_FORMS else f"code.gen {name} {ms}"
-                out = canon(call(cls.generate, arg))
+                res = call(cls.generate, arg)
+                out = canon(res)
                 cnt += 1
+                if out == R.cw[v] and not form.startswith("frozen") and res is not arg:
+                    # the caller goes on using its argument object: the array it was given must not follow
+                    try:
+                        if isinstance(arg, numpy.ndarray):
+                            arg[...] = 1 - arg if arg.dtype != bool else ~arg
+                        else:
+                            arg.invert()
+                    except BaseException:  # noqa
+                        pass
+                    after = canon(res)
+                    if after != out:
+                        fails("held-result-changed", {"code": name, "op": "generate, then the caller inverts its argument object", "form": form, "message": ms}, f"the array returned by {name}.generate changed when the caller modified the argument object afterwards", expected=out, actual=after)
+                    try:
+                        if isinstance(arg, numpy.ndarray):
+                            arg[...] = 1 - arg if arg.dtype != bool else ~arg
+                        else:
+                            arg.invert()
+                    except BaseException:  # noqa
+                        pass
                 ctx.case((name, "gen", form, v), nontrivial=v != 0)
                 pairs_form.append((line, out))
                 if out != R.cw[v]:
@@ -711,7 +948,12 @@ def run(ctx):
                         rs, rl = r, r
                     else:
                         rs = f"{b01(r[0])} {canon(r[1])}"
-                        rl = f"{b01(r[0])} {r[1].tobytes().hex() or '-'}" if isinstance(r[1], bitarray) else rs
+                        # the repaired bits written as a buffer of the argument's bit order (a canonical
+                        # encoding of the logical bits: which object / bit order comes back is not compared)
+                        try:
+                            rl = f"{b01(r[0])} {bitarray(canon(r[1]), endian=st.split(' ')[0]).tobytes().hex() or '-'}"
+                        except ValueError:
+                            rl = rs
                     pairs_form.append((f"code.cacS {name} {st}", rl))
                     ctx.case((name, "cac", form, wi), nontrivial=wi != 0)
                     want = R.cac(ws)
@@ -835,6 +1077,68 @@ def run(ctx):
             if getattr(c[1], a).tolist() != v0:
                 fails("class-table-changed", {"code": name, "table": a}, f"{name}.{a} was modified during the run", expected="unchanged", actual="changed")
     ctx.exhaustive = ctx.thorough()
+    rank_failures(ctx, refs)
+
+
+def failure_as_step(refs, f):
+    """the single call a non-history failure record is about, as a history step (None: not expressible)"""
+    inp = f.get("input") or {}
+    if not isinstance(inp, dict) or "code" not in inp or "history" in inp:
+        return None
+    code, form, op = inp["code"], inp.get("form", "be"), inp.get("op", "")
+    if "twice" in op or "then the caller" in op:
+        return None
+    if "message" in inp:
+        if "position" in inp or "positions" in inp:
+            wi = int(refs[code].enc(inp["message"]), 2)
+            for p in [inp["position"]] if "position" in inp else inp["positions"]:
+                wi ^= 1 << (refs[code].n - 1 - p)
+            return ["cac", code, "be", format(wi, refs[code].fmt)]
+        return ["gen", code, form, inp["message"]]
+    if "word" in inp:
+        if form in NP_FORMS:
+            return ["correct", code, form, inp["word"]]
+        if f["kind"] == "checker-not-exact" or op == "check":
+            return ["check", code, form, inp["word"]]
+        return ["cac", code, form if form in MUTABLE_BA_FORMS else "be", inp["word"]]
+    return None
+
+
+def rank_failures(ctx, refs):
+    """
+    Failing inputs that fail on their own in a fresh process are reported first: a defect that
+    depends on what was called before (a cache, a recycled buffer) also spoils single calls of the
+    sweeps, and such a record alone does not reproduce anything.
+    """
+    if not ctx.failures:
+        return
+    todo = []
+    for f in ctx.failures:
+        if isinstance(f.get("input"), dict) and "fails_when_run_alone_in_a_fresh_process" not in f["input"]:
+            st = failure_as_step(refs, f)
+            if st is not None:
+                todo.append((f, st))
+            if len(todo) >= 400:
+                break
+    if todo:
+        try:
+            res = fresh_first_failing_each([[[st]] for _, st in todo])
+            for (f, _), r in zip(todo, res):
+                f["input"]["fails_when_run_alone_in_a_fresh_process"] = r is not None
+                if r is None:
+                    f["what"] += " (this call alone does not fail in a fresh process: it depends on earlier calls of the run)"
+        except BaseException as e:  # noqa
+            ctx.notes.append(f"fresh-process classification of the failing inputs did not run: {type(e).__name__}")
+
+    def key(f):
+        v = f["input"].get("fails_when_run_alone_in_a_fresh_process") if isinstance(f.get("input"), dict) else None
+        if v is True:
+            return 0
+        if isinstance(f.get("input"), dict) and "history" in f["input"]:
+            return 1  # at least carries the calls that came before
+        return 3 if v is False else 2
+
+    ctx.failures.sort(key=key)
 
 
 # ------------------------------------------------------------------------------------------------
@@ -895,3 +1199,12 @@ def replay(obj):
                     still = rs != f.get("expected")
     print("expected:", f.get("expected"), "actual:", f.get("actual"))
     return 1 if still or still is None else 0
+
+
+if __name__ == "__main__":
+    import sys
+
+    if sys.argv[1:] == ["--fresh"]:
+        _fresh_main()
+    elif sys.argv[1:] == ["--ddmin"]:
+        _ddmin_main()
